@@ -50,7 +50,31 @@ func makeNamedType(name string, underlying types.Type) *types.Named {
 }
 
 func makeReflectValue(t types.Type, v value) value {
-	return structure{rtype{t}, v}
+	return structure{rtype{t}, v, (*value)(nil)}
+}
+
+// makeReflectValueAddr is an addressable reflect.Value: addr is where the value lives.
+func makeReflectValueAddr(t types.Type, v value, addr *value) value {
+	return structure{rtype{t}, v, addr}
+}
+
+func rVAddr(v value) *value {
+	st := v.(structure)
+	if len(st) > 2 {
+		if a, ok := st[2].(*value); ok {
+			return a
+		}
+	}
+	return nil
+}
+
+func rVValid(v value) bool {
+	st, ok := v.(structure)
+	if !ok || len(st) == 0 {
+		return false
+	}
+	rt, ok := st[0].(rtype)
+	return ok && rt.t != nil
 }
 
 // Given a reflect.Value, returns its rtype.
@@ -88,17 +112,7 @@ func ext۰reflect۰rtype۰Elem(fr *frame, args []value) value {
 func ext۰reflect۰rtype۰Field(fr *frame, args []value) value {
 	// Signature: func (t reflect.rtype, i int) reflect.StructField
 	st := args[0].(rtype).t.Underlying().(*types.Struct)
-	i := args[1].(int)
-	f := st.Field(i)
-	return structure{
-		f.Name(),
-		f.Pkg().Path(),
-		makeReflectType(rtype{f.Type()}),
-		st.Tag(i),
-		0,         // TODO(adonovan): offset
-		[]value{}, // TODO(adonovan): indices
-		f.Anonymous(),
-	}
+	return structFieldValue(st, args[1].(int))
 }
 
 func ext۰reflect۰rtype۰In(fr *frame, args []value) value {
@@ -393,11 +407,11 @@ func ext۰reflect۰Value۰Elem(fr *frame, args []value) value {
 	case iface:
 		return makeReflectValue(x.t, x.v)
 	case *value:
-		var v value
-		if x != nil {
-			v = *x
+		et := rV2T(args[0]).t.Underlying().(*types.Pointer).Elem()
+		if x == nil {
+			return makeReflectValue(nil, nil)
 		}
-		return makeReflectValue(rV2T(args[0]).t.Underlying().(*types.Pointer).Elem(), v)
+		return makeReflectValueAddr(et, load(et, x), x)
 	default:
 		panic(fmt.Sprintf("reflect.(Value).Elem(%T)", x))
 	}
@@ -407,7 +421,12 @@ func ext۰reflect۰Value۰Field(fr *frame, args []value) value {
 	// Signature: func (v reflect.Value, i int) reflect.Value
 	v := args[0]
 	i := args[1].(int)
-	return makeReflectValue(rV2T(v).t.Underlying().(*types.Struct).Field(i).Type(), rV2V(v).(structure)[i])
+	ft := rV2T(v).t.Underlying().(*types.Struct).Field(i).Type()
+	if a := rVAddr(v); a != nil {
+		fa := &(*a).(structure)[i]
+		return makeReflectValueAddr(ft, load(ft, fa), fa)
+	}
+	return makeReflectValue(ft, rV2V(v).(structure)[i])
 }
 
 func ext۰reflect۰Value۰Float(fr *frame, args []value) value {
@@ -470,11 +489,15 @@ func ext۰reflect۰Value۰IsNil(fr *frame, args []value) value {
 
 func ext۰reflect۰Value۰IsValid(fr *frame, args []value) value {
 	// Signature: func (reflect.Value) bool
-	return rV2V(args[0]) != nil
+	return rVValid(args[0])
 }
 
 func ext۰reflect۰Value۰Set(fr *frame, args []value) value {
-	// TODO(adonovan): implement.
+	a := rVAddr(args[0])
+	if a == nil {
+		rtPanic(fr.i, "reflect: reflect.Value.Set using unaddressable value")
+	}
+	store(rV2T(args[0]).t, a, copyVal(rV2V(args[1])))
 	return nil
 }
 
@@ -538,6 +561,7 @@ func initReflect(prog *ssa.Program) {
 		rV.SetUnderlying(types.NewStruct([]*types.Var{
 			types.NewField(token.NoPos, r.Pkg, "t", tEface, false), // a lie
 			types.NewField(token.NoPos, r.Pkg, "v", tEface, false),
+			types.NewField(token.NoPos, r.Pkg, "a", tEface, false),
 		}, nil))
 	}
 
@@ -554,6 +578,9 @@ func initReflect(prog *ssa.Program) {
 		"Out":       newMethod(i.reflectPackage, rtypeType, "Out"),
 		"Size":      newMethod(i.reflectPackage, rtypeType, "Size"),
 		"String":    newMethod(i.reflectPackage, rtypeType, "String"),
+	}
+	for _, extra := range []string{"FieldByName", "Name", "PkgPath", "Key", "Len", "Comparable", "Implements", "MethodByName"} {
+		rtypeMethods[extra] = newMethod(i.reflectPackage, rtypeType, extra)
 	}
 	errorMethods = methodSet{
 		"Error": newMethod(i.reflectPackage, errorType, "Error"),
